@@ -15,7 +15,8 @@ CHECKS = {
             "interpreter summed over own Gauss nodes (differential testing of the whole compiler)",
             "Batches of generated forms (dims 1-3, arity 1-2, scalar/vector and non-square component counts, two spaces, "
             "dx/ds/boundary/gw, physical and parametric derivatives up to order 2, spline and callable input fields, "
-            "parameters, x/n/jac, algebra, abs/sqrt/exp/log/sin/cos/tan) are compiled in crash-isolated workers with private "
+            "parameters, x/n/jac, algebra, abs/sqrt/exp/log/sin/cos/tan; one form in six a space-time form with Dt and mixed "
+            "space-time derivatives on a space-time cylinder) are compiled in crash-isolated workers with private "
             "caches (compile_vforms batches, single compile_vform, string front-end) and every entry of the assembled "
             "matrix/vector plus selected entry() calls are compared with the reference Gauss sum on generated open knot "
             "vectors (mixed degrees, repeated knots) and B-spline/NURBS geometries. Every accepted form must build, load "
@@ -34,7 +35,8 @@ CHECKS = {
             "signal exit is the violation the property names), the matrix equals the undamaged run bit for bit and the "
             "independent reference. Compiling processes (or their process groups) are SIGKILLed at generated times, and "
             "2..8 processes race on the same / distinct forms from an empty cache with generated start offsets; a shared "
-            "object that a process has loaded must never change afterwards. States the tree cannot produce are not "
+            "object that a process has loaded must never change afterwards. A request that never returns is decided from the "
+            "process state (sleeping, no compiler child, no CPU progress), a plain time-out is inconclusive. States the tree cannot produce are not "
             "injected (unknown never means in-place).",
             "Kernel-level torn writes / power loss are outside the model; kill times and interleavings are sampled.",
             "DESIGN.md section 2, C20"),
@@ -45,7 +47,8 @@ CHECKS = {
             "collocation_derivs(_info), ev/deriv, compute_values_derivs, BSplineFunc grid evaluators) are compared with an "
             "independent exact-rational Cox-de Boor reference at generated points including knots of every "
             "multiplicity, both ends and adjacent floats, for p up to 12 and derivative orders up to p+2; tolerance "
-            "16(p+1)eps*S_k from the exact sum of absolute terms. Workers are crash-isolated (a segfault becomes a "
+            "16(p+1)eps*S_k from the exact sum of absolute terms. A quarter of the random cases use span ratios up to 1e14 "
+            "and geometrically graded meshes (spans <= 1e-12). Workers are crash-isolated (a segfault becomes a "
             "violation with the journalled case). Sampling plus an exhaustive sweep of a small family; not a proof.",
             "Trusted: Python fractions, numpy; points never denormal (FTZ/DAZ).",
             "DESIGN.md section 2, C02"),
@@ -57,7 +60,8 @@ CHECKS = {
             "Laplace / nonsymmetric convection with input field and parameter / L2 functionals with parametric and "
             "physical data, on affine, curved B-spline and NURBS geometries, is compared entrywise with the level-wise "
             "definition (quadrature of the finer level), THB results with the congruence by a definition-based THB-to-HB "
-            "matrix, symmetric with general assembly, and (polynomial integrands) with I^T A_fine I. The on-demand "
+            "matrix, symmetric with general assembly, and (polynomial integrands) with I^T A_fine I. Histories include adaptive "
+            "loops in which the space is assembled on and queried after every refinement step (stale caches). The on-demand "
             "assemblers are JIT-compiled once per run. Sampling, not proof; dim 3 and 4 levels only in the thorough tier.",
             "Trusted: vp/ref/forms.py, vp/ref/hier.py, vp/ref/bspl.py.",
             "DESIGN.md section 2, C03"),
@@ -66,7 +70,7 @@ CHECKS = {
             "longer histories (model-based: every call is replayed on a reference model of nested cell sets)",
             "All sequences of <=2 (quick) / <=3 (thorough) refine calls over all non-empty subsets of active cells "
             "(multi-level marks included) on 1D meshes with <=3(4) cells and the 2D 2x2 mesh, for p in {1,2,3}, disparity "
-            "{inf,1,2}, HB/THB, marks as set/list/tuple, are enumerated; random histories in 1D-3D with refine_region and "
+            "{inf,1,2}, HB/THB, marks as set/list/tuple/frozenset and as the live set returned by active_cells(lv), are enumerated; random histories in 1D-3D with refine_region and "
             "copies are generated. After every call: tiling, activity by the support definition (both directions), "
             "canonical order, rank of represent_fine, THB non-negativity/partition of unity, HB<->THB transforms against "
             "a definition-based reference, disparity bound, incidence matrix and support queries. Exhaustive only for "
@@ -82,7 +86,8 @@ CHECKS = {
             "virtual-hierarchy prolongators (HB and THB, composed from every virtual level), prolongate_to between a "
             "history prefix and the full history, HSpace.boundary (cells, functions, index map, function identity on the "
             "face) and HSplineFunc evaluation (values, gradients, Hessians, single point) are checked through the "
-            "identity B_fine P = B_coarse on a common finest tensor-product level. Sampling, not proof.",
+            "identity B_fine P = B_coarse on a common finest tensor-product level; the transfer queries of one object run in a "
+            "generated order and are repeated (observations must not change state). Sampling, not proof.",
             "Trusted: vp/ref/bspl.py (exact Boehm), vp/ref/hier.py. One open known finding (THB virtual prolongators on "
             ">= 3 levels) is matched only when pyiga still computes exactly the known-wrong formula.",
             "DESIGN.md section 2, C05"),
@@ -96,7 +101,8 @@ CHECKS = {
             "the value of the finalized expressions executed in the emitted order (precomputed variables, kernel "
             "variables, kernel expressions); use-before-definition, basis-function dependence of precomputed variables "
             "and nodes outside the back-end's dispatch table fail by construction. det/adjugate/minor/cross/MatVec/MatMat/"
-            "tr/T/outer/inner expansions are decided exhaustively on {0,1}^m (multilinear => polynomial identity).",
+            "tr/T/outer/inner expansions are decided exhaustively on {0,1}^m (multilinear => polynomial identity). Space-time forms "
+            "(Dt, mixed space-time derivatives, the space-time splitting) are generated on space-time cylinders.",
             "Trusted: vp/ref/forms.py, vp/ref/target.py, vp/ref/geo.py. Environments are real Gauss nodes of generated "
             "spaces/geometries rather than abstract random jets (deviation from the first design, see DESIGN.md).",
             "DESIGN.md section 2, C06"),
@@ -121,7 +127,8 @@ CHECKS = {
             "blocked/packed with the documented permutation, entry / multi_entries / multi_blocks on unsorted subsets, "
             "on-demand bounding boxes, update()/update_params() versus a fresh assembler, reuse of one object - must "
             "reproduce the base result to rounding, and thread counts 2..16 (thread-pool chunking and OpenMP prange) must "
-            "reproduce it bit for bit. Sampling; the thread schedule is not owned by the harness (races searched by "
+            "reproduce it bit for bit; update/assemble histories on one assemble.Assembler object must equal freshly constructed "
+            "assemblers. Sampling; the thread schedule is not owned by the harness (races searched by "
             "repetition).",
             "Trusted: the base configuration is tied to the independent reference by C01. A race needing a rare "
             "interleaving can be missed.",
@@ -207,7 +214,8 @@ CHECKS = {
             "number of classes, equal global index iff same class, gap-free numbering, 0/1 patch-to-global matrices with "
             "X^T X = I. Generated conforming decompositions of a curved patch are compared with the undivided patch "
             "(mass, stiffness, non-symmetric space-time heat, L2 functional), detect_interfaces must return exactly the "
-            "constructed interfaces with flips, multipatch Dirichlet data must address the glued dofs. Exhaustive for "
+            "constructed interfaces with flips (also for rings around a vertex and polygonal annuli in which two patches share "
+            "two faces), multipatch Dirichlet data must address the glued dofs. Exhaustive for "
             "the stated complexes, sampling beyond.",
             "Trusted: vp/ref/c14_glue.py (union-find, own face enumeration with the documented flip semantics).",
             "DESIGN.md section 2, C14"),
